@@ -22,6 +22,9 @@ for p in sorted(glob.glob(os.path.join(os.path.dirname(__file__), "..", "seeded"
     if m.get("obsolete"):
         status = "no longer a breaking change (see note)"
         extra = m["obsolete"]
+    if m.get("out_of_scope"):
+        status = "outside the property's quantifier (see note)"
+        extra = m["out_of_scope"]
     rows.append((m["property"], name, summ, status, mech, extra or ""))
 print("| property | change | what was changed | quick check | mechanisms reported | check extended because of it |")
 print("|---|---|---|---|---|---|")
